@@ -186,9 +186,12 @@ class Plain:
 
 
 def run_other(bs, acc, ctx):
-    conts = list(families.all_bits(3)) + ['10110010', '0000000011111111']
-    nonprom = [('int', 3), ('zero', 0), ('bool', True), ('float', 1.5), ('None', None), ('object', object()), ('complex', 1j),
-               ('function', run_other), ('plain', Plain()), ('type', int)]
+    conts = list(families.all_bits(3)) + ['10110010', '0000000011111111', '101100101']
+    # whole-byte forms of the short contents (zero padded): equal bytes but different length must compare unequal
+    conts += sorted({c + '0' * ((-len(c)) % 8) for c in conts if len(c) % 8})
+    nonprom = [('int', 3), ('zero', 0), ('negint', -1), ('negint5', -5), ('bigint', 2 ** 70), ('negbig', -2 ** 70), ('bool', True), ('false', False),
+               ('float', 1.5), ('negfloat', -1.5), ('nan', float('nan')), ('inf', float('inf')), ('None', None), ('object', object()),
+               ('complex', 1j), ('function', run_other), ('plain', Plain()), ('type', int), ('ellipsis', Ellipsis), ('notimpl', NotImplemented)]
     for c in conts:
         for cls in CLASSES:
             a = getattr(bs, cls)(bin=c)
@@ -206,8 +209,11 @@ def run_other(bs, acc, ctx):
                                       '\n'.join(["import bitstring", f"a = bitstring.{cls}(bin={c!r})", f"assert (a == {_src(name, c2)}) is {exp}"]), exp, (r1, r2))
             for name, v in nonprom:
                 r1, r2 = obs(lambda: a == v), obs(lambda: a != v)
-                acc.step('nonpromotable', 2, nontrivial=2, ok=2)
-                if r1 != ('ok', False) or r2 != ('ok', True):
+                r3, r4 = obs(lambda: v == a), obs(lambda: v != a)
+                acc.step('nonpromotable', 4, nontrivial=4, ok=4)
+                if name == 'notimpl':
+                    r3, r4 = ('ok', False), ('ok', True)
+                if r1 != ('ok', False) or r2 != ('ok', True) or r3 != ('ok', False) or r4 != ('ok', True):
                     acc.violation('nonpromotable', 'exc' if r1[0] == 'exc' else 'value', dict(cls=cls, bits=c, other=name),
                                   '\n'.join(["import bitstring", f"a = bitstring.{cls}(bin={c!r})", f"assert (a == {_nsrc(name)}) is False and (a != {_nsrc(name)}) is True"]),
                                   False, (r1, r2))
@@ -238,8 +244,9 @@ def _src(name, bits):
 
 
 def _nsrc(name):
-    return {'int': '3', 'zero': '0', 'bool': 'True', 'float': '1.5', 'None': 'None', 'object': 'object()', 'complex': '1j',
-            'function': 'len', 'plain': "type('P', (), {})()", 'type': 'int'}[name]
+    return {'int': '3', 'zero': '0', 'negint': '-1', 'negint5': '-5', 'bigint': '2 ** 70', 'negbig': '-2 ** 70', 'bool': 'True', 'false': 'False',
+            'float': '1.5', 'negfloat': '-1.5', 'nan': "float('nan')", 'inf': "float('inf')", 'None': 'None', 'object': 'object()', 'complex': '1j',
+            'function': 'len', 'plain': "type('P', (), {})()", 'type': 'int', 'ellipsis': 'Ellipsis', 'notimpl': 'NotImplemented'}[name]
 
 
 def run_triples(bs, acc, ctx):
